@@ -270,7 +270,20 @@ NOT_YET = {
 }
 
 
+CHOSEN_BY_COVERAGE = ("C01", "C04", "C05", "C06", "C07", "C08", "C11", "C12")
+PATH_CLASSES = ("C14", "C15")
+
+
 def build() -> dict:
+    for pid in CHOSEN_BY_COVERAGE:
+        CHECKS[pid]["text"] += (" In addition a coverage-guided chooser (harness/fuzz_probe.py) mutates a sample of "
+                                "these calls inside the target interpreter and keeps every mutant that takes a new "
+                                "line transition of the package; the kept calls are executed and validated by TLC "
+                                "like all others (the chooser never judges).")
+    for pid in PATH_CLASSES:
+        CHECKS[pid]["text"] += (" The accounts offered to each Bundesbank method are one per path class (distinct set "
+                                "of executed package lines and outcome kind) plus an ordinary and a special-case "
+                                "account chosen independently of the code under test.")
     checks = []
     for pid, c in sorted(CHECKS.items()):
         checks.append({
